@@ -95,12 +95,52 @@ pub fn gen(r: &mut Rng, _tier: &str, _i: usize, stats: &mut BTreeMap<String, u64
             pool.push(r.pick(&["0", "1", "2", "(1 - 1)", "0 * 3"]).to_string());
             continue;
         }
+        if profile == "diff" && r.chance(1, 8) {
+            // products and sums of few atoms: their derivatives collapse to ONE node that still has to list
+            // every variable of the antiderivative (and is differentiated again below)
+            pool.push(r.pick(&["x * y", "y * x", "x * cos(y) + z", "x * y * z", "a * b", "x + y", "x * sin(y)", "y * exp(x) + x", "2 * x + y", "x * y + z * y"]).to_string());
+            continue;
+        }
         let vs = *r.pick(var_sets);
         pool.push(gen_text(r, vs, 0, nodiff_pct));
     }
     let flat = r.chance(1, 2);
     // one flat pool in four holds unfolded expressions
     let wo_pool = flat && r.chance(1, 4);
+    if profile == "default" && r.chance(1, 4) {
+        // "a neutral element that still lists variables": x*0, x^0, 0/x, (x*0)+1 keep the variables of x;
+        // every operator (and its shortcut) then meets such an operand on either side
+        let vs1 = *r.pick(var_sets);
+        let e1 = gen_text(r, vs1, 0, nodiff_pct);
+        let vs2 = *r.pick(var_sets);
+        let e2 = gen_text(r, vs2, 0, nodiff_pct);
+        let pool = vec![e1, e2, "0".to_string(), "1".to_string(), "2".to_string()];
+        let op = |o: &str, i: usize, j: usize| if flat { format!("b:{}:{}:{}", i, j, hex(o)) } else { format!("{}:{}:{}", o, i, j) };
+        let mut steps = vec![match r.below(4) {
+            0 => op("*", 0, 2),
+            1 => op("*", 2, 0),
+            2 => op("^", 0, 2),
+            _ => op("/", 2, 0),
+        }];
+        if r.chance(1, 2) {
+            // 0 + 1 / 1 * 1 ...: the neutral element changes, the variable list must not
+            steps.push(op(*r.pick(&["+", "*", "-"]), 99, 2 + r.below(2)));
+        }
+        let o = *r.pick(&["+", "-", "*", "/", "^"]);
+        steps.push(if r.chance(1, 2) { op(o, 1, 99) } else { op(o, 99, 1) });
+        if r.chance(1, 2) {
+            let o = *r.pick(&["+", "-", "*", "/", "^"]);
+            steps.push(if r.chance(1, 2) { op(o, r.below(5), 99) } else { op(o, 99, r.below(5)) });
+        }
+        *stats.entry("neutral_with_vars".to_string()).or_insert(0) += 1;
+        return format!(
+            "hist\t{}\tnum\t{}\t{}\t{}",
+            table_to_field(&t),
+            pool.iter().map(|s| hex(s)).collect::<Vec<_>>().join(";"),
+            if flat { if wo_pool { "W" } else { "F" } } else { "D" },
+            steps.join("|")
+        );
+    }
     let nsteps = 1 + r.below(if profile == "subs" { 3 } else { 6 });
     let mut steps = vec![];
     let mut est: Vec<f64> = pool.iter().map(|p| p.len() as f64).collect();
@@ -109,7 +149,23 @@ pub fn gen(r: &mut Rng, _tier: &str, _i: usize, stats: &mut BTreeMap<String, u64
         let i = r.below(16);
         let j = r.below(16);
         let after_p = steps.last().map(|l: &String| l.starts_with("p:")).unwrap_or(false);
-        let (i, kind) = if after_p && r.chance(1, 2) { (99, "s") } else { (i, "") };
+        // after a derivative: substitute into it, or differentiate it once more in a separate call
+        let (i, kind) = if after_p && r.chance(1, 2) { (99, "s") } else if after_p && r.chance(1, 2) { (99, "p99") } else { (i, "") };
+        if kind == "p99" {
+            // (piecewise expressions over the value type grow fast under differentiation: one more order at most)
+            let n = if profile == "val" { r.below(2) } else { r.below(3) };
+            let idxs: Vec<String> = (0..n).map(|_| r.below(3).to_string()).collect();
+            let step = format!("p:99:{}", if idxs.is_empty() { "-".to_string() } else { idxs.join(",") });
+            let last = *est.last().unwrap();
+            est.push(last * (if profile == "val" { 40f64 } else { 6f64 }).powi(n as i32));
+            if *est.last().unwrap() <= 40000.0 {
+                *stats.entry("step_p_again".to_string()).or_insert(0) += 1;
+                steps.push(step);
+                continue;
+            }
+            est.pop();
+        }
+        let kind = if kind == "p99" { "" } else { kind };
         let kind = if kind == "s" { "s" } else { match profile {
             "subs" => *r.pick(&["s", "s", "s", "b", "u"]),
             "diff" | "val" => *r.pick(&["p", "p", "p", "b", "s"]),
@@ -276,6 +332,7 @@ pub fn run(f: &[&str]) -> String {
         }
         let mut out = vec![];
         let mut rtbad = "-".to_string();
+        let mut varsbad = "-".to_string();
         for step in &hist {
             let g: Vec<&str> = step.split(':').collect();
             // index 99 = the most recent pool entry
@@ -345,9 +402,48 @@ pub fn run(f: &[&str]) -> String {
                     }
                 }
             })).map_err(|_| ());
+            // documented variable list of the result (C04/C09/C10/C11): the sorted duplicate-free union of
+            // the operands' lists; unchanged by unary operators and differentiation; for a substitution
+            // every listed variable is replaced by the variables of its replacement
+            let names = |p: &P| -> Vec<String> {
+                match p {
+                    P::Fl(f) => f.var_names().to_vec(),
+                    P::De(d) => d.var_names().to_vec(),
+                }
+            };
+            let same_form = |a: &P, b: &P| matches!((a, b), (P::Fl(_), P::Fl(_)) | (P::De(_), P::De(_)));
+            let mut want: Vec<String> = match g[0] {
+                "b" | "+" | "-" | "*" | "/" | "^" => {
+                    let mut v = names(&pool[idx(g[1])]);
+                    v.extend(names(&pool[idx(g[2])]));
+                    v
+                }
+                "s" => {
+                    let target = &pool[idx(g[1])];
+                    let mut v = vec![];
+                    for n in names(target) {
+                        let rep = if g[2] == "-" {
+                            None
+                        } else {
+                            g[2].split(';').map(|kv| { let q: Vec<&str> = kv.split('=').collect(); (unhex(q[0]), idx(q[1])) }).find(|q| q.0 == n && same_form(&pool[q.1], target))
+                        };
+                        match rep {
+                            Some((_, k)) => v.extend(names(&pool[k])),
+                            None => v.push(n),
+                        }
+                    }
+                    v
+                }
+                _ => names(&pool[idx(g[1])]),
+            };
+            want.sort();
+            want.dedup();
             match r {
                 Ok(Ok(p)) => {
                     out.push(format!("ok {}", show(&p, &t)));
+                    if varsbad == "-" && names(&p) != want {
+                        varsbad = format!("step{}:{}:listed={}:documented={}", out.len() - 1, step, crate::k_flat::strs(&names(&p)), crate::k_flat::strs(&want));
+                    }
                     if rtbad == "-" {
                         let r = round_trip(&p, &t);
                         if r != "-" {
@@ -360,6 +456,6 @@ pub fn run(f: &[&str]) -> String {
                 Err(_) => out.push("PANIC".to_string()),
             }
         }
-        format!("pool=ok\tsteps={}\trtbad={}", out.join("|"), rtbad)
+        format!("pool=ok\tsteps={}\trtbad={}\tvarsbad={}", out.join("|"), rtbad, varsbad)
     })
 }
